@@ -524,6 +524,10 @@ def run(prog: Program, rep: Report, tier: str) -> None:
     compactify_step(prog, rep)
     provenance(prog, rep)
     no_reorder_on_output(prog, rep)
+    from ..share import share
+
+    share(prog, rep, "C08", ("R08.1",), "R05.6", "a restart restores identifiers and rows of the last record only (slices of the warm-start reader)", 3)
+
 
 
 from ..selftest import Mut  # noqa: E402
